@@ -157,6 +157,7 @@ func GenCall(t *rapid.T, c Case, b Bias, i int) Op {
 		}
 		if b.ErrorNodes && rapid.IntRange(0, 5).Draw(t, l(fmt.Sprintf("err%d_", s))) == 0 {
 			bh.ErrCode, bh.ErrMsg = rapid.SampledFrom([]int{2, 5, 14}).Draw(t, l(fmt.Sprintf("code%d_", s))), "scripted"
+			bh.StampErr = true
 			set = true
 		}
 		if scen.IsStream(kind) {
